@@ -401,6 +401,34 @@ Section Write.
   Qed.
 End Write.
 
+(* ---------------------------------------------------------------- the connection during a run *)
+
+Lemma write_once_conn x w d : cx_conn (fst (fst (write_once x w d))) = cx_conn x /\ cx_msg (fst (fst (write_once x w d))) = cx_msg x.
+Proof.
+  unfold write_once. destruct (_ <? _); [split; reflexivity|].
+  destruct d as [k|]; cbn [sendmsg]; split; reflexivity.
+Qed.
+
+Lemma run_step_conn r e : r_conn (run_step r e) = r_conn r.
+Proof.
+  unfold run_step. destruct (r_panicked r); [reflexivity|].
+  destruct r as [c w p]. cbn [r_caller r_world]. destruct c as [x|c m st|x s]; destruct e as [k| | |]; try reflexivity.
+  - pose proof (write_once_conn x w (KAccept k)) as [E _].
+    destruct (write_once x w (KAccept k)) as [[x' w'] res]. cbn [fst] in E.
+    destruct res; try (destruct (all_bytes_written x')); unfold r_conn; cbn [r_caller]; exact E.
+  - pose proof (write_once_conn x w KAgain) as [E _].
+    destruct (write_once x w KAgain) as [[x' w'] res]. cbn [fst] in E.
+    destruct res; unfold r_conn; cbn [r_caller]; exact E.
+Qed.
+
+Lemma run_send_conn x w sched : r_conn (run_send x w sched) = cx_conn x.
+Proof.
+  unfold run_send.
+  assert (G : forall r, r_conn (fold_left run_step sched r) = r_conn r).
+  { induction sched as [|e sched IH]; intros r; cbn [fold_left]; [reflexivity|]. rewrite IH. apply run_step_conn. }
+  rewrite G. reflexivity.
+Qed.
+
 (* ---------------------------------------------------------------- from send_message *)
 
 Section FromSendMessage.
@@ -449,6 +477,23 @@ Section FromSendMessage.
     - now rewrite app_nil_r.
   Qed.
 
+  (* send_message does not look at what an earlier message left in header_buf *)
+  Lemma send_message_forgets_header c m :
+    send_message hdr_fields c m = send_message hdr_fields {| header_buf := []; serial_counter := serial_counter c |} m.
+  Proof.
+    unfold send_message. destruct (dh_serial (msg_dyn m)) as [p|]; cbn [bind]; [reflexivity|].
+    unfold alloc_serial. cbn [serial_counter header_buf]. destruct (_ <? _); reflexivity.
+  Qed.
+
+  Lemma send_message_conn_ok c m c' x : conn_ok c -> op_wf (OpSend m) ->
+    send_message hdr_fields c m = Ok (c', x) -> conn_ok c'.
+  Proof.
+    intros Hc Hw H. cbn [op_wf] in Hw.
+    destruct (send_message_cases hdr_fields c m Hc Hw) as [(_ & c2 & x2 & E & Hc2 & _)|(_ & _ & E)]; rewrite E in H;
+      [|discriminate].
+    inversion H; subst. exact Hc2.
+  Qed.
+
   (* C10, stated from the API: send one message under any schedule *)
   Theorem send_exactly_once : forall c m c' x w0 sched,
     conn_ok c -> op_wf (OpSend m) -> send_message hdr_fields c m = Ok (c', Some x) ->
@@ -471,6 +516,34 @@ Section FromSendMessage.
     destruct (send_message_inv c m c' x w0 Hc Hw H) as (I & Z & G & Hws & _).
     pose proof (run_send_closed_form _ _ _ _ _ x w0 I) as C. rewrite Z in C.
     apply C. rewrite len_app. lia.
+  Qed.
+
+  (* Giving a message up does not disturb the next one. Whatever happened to the first message (any
+     schedule, stopped at any point: not started, partially written, suspended, complete) and however the
+     caller got rid of its context, the connection it holds again is [r_conn]; a message sent on it
+     satisfies the whole specification relative to what the peer holds by then. *)
+  Theorem next_message_unaffected : forall c m c' x w sched m2 c2 x2 sched2,
+    conn_ok c -> op_wf (OpSend m) -> send_message hdr_fields c m = Ok (c', Some x) ->
+    let r := run_send x w sched in
+    op_wf (OpSend m2) -> send_message hdr_fields (r_conn r) m2 = Ok (c2, Some x2) ->
+    send_spec (header_buf c2) (msg_body m2) (msg_raw_fds m2) (ctx_serial x2) (r_world r) (run_send x2 (r_world r) sched2).
+  Proof.
+    intros c m c' x w sched m2 c2 x2 sched2 Hc Hw H r Hw2 H2.
+    assert (E : r_conn r = c').
+    { unfold r. rewrite run_send_conn. destruct (send_message_ctx _ _ _ _ H) as (s & E1 & _). exact E1. }
+    rewrite E in H2.
+    apply (send_exactly_once c' m2 c2 x2 (r_world r) sched2); [exact (send_message_conn_ok c m c' (Some x) Hc Hw H)|exact Hw2|exact H2].
+  Qed.
+
+  (* ... nor does a message that send_message refused (a header field failed validation after part of
+     the header had been written, or the message is too long) *)
+  Theorem next_after_refused : forall c m c' m2 c2 x2 w sched2,
+    conn_ok c -> op_wf (OpSend m) -> send_message hdr_fields c m = Ok (c', None) ->
+    op_wf (OpSend m2) -> send_message hdr_fields c' m2 = Ok (c2, Some x2) ->
+    send_spec (header_buf c2) (msg_body m2) (msg_raw_fds m2) (ctx_serial x2) w (run_send x2 w sched2).
+  Proof.
+    intros c m c' m2 c2 x2 w sched2 Hc Hw H Hw2 H2.
+    apply (send_exactly_once c' m2 c2 x2 w sched2); [exact (send_message_conn_ok c m c' None Hc Hw H)|exact Hw2|exact H2].
   Qed.
 
   (* send_message_write_all: Ok(s) means the peer holds header ++ body and the descriptors, once,
